@@ -314,7 +314,11 @@ def sample(ctx, budget=1.0, hint=None, broken=None):
                         elif k == 'qlen-loose':
                             hist.append('length(error=1e-3,min_depth=1)')
                             path.length(error=1e-3, min_depth=1)
-                            continue
+                            fq = P.Path(*list(path))
+                            fq.length()
+                            if not (path == fq) or (path != fq) or not (fq == path):
+                                fail('Path.__eq__ after length(error=...)', 'equality depends on which accuracy the cached lengths were computed with',
+                                     {'history': hist[-8:]}, 'unequal', 'equal')
                         else:
                             hist.append('queries')
                     except IndexError:
@@ -324,8 +328,6 @@ def sample(ctx, budget=1.0, hint=None, broken=None):
                     nontriv.add((k, quad_avail))
                     got = _queries(spt, path)
                     ref = _queries(spt, P.Path(*list(path)))
-                    if k == 'qlen-loose':
-                        continue
                     for (nm, a), (_, b) in zip(got, ref):
                         if not _same(a, b):
                             lastmut = [h for h in hist if h not in ('queries',)][-1:] or ['(construction)']
@@ -337,7 +339,9 @@ def sample(ctx, budget=1.0, hint=None, broken=None):
                             break
                     # equality with a fresh copy, and with itself after queries
                     fp = P.Path(*list(path))
-                    if not (path == fp) or (path != fp):
+                    if r.random() < 0.5:
+                        fp.length()      # equality must not depend on which caches happen to be filled
+                    if not (path == fp) or (path != fp) or not (fp == path):
                         fail('Path.__eq__ after history', 'path != a fresh Path of its own segments', {'history': hist[-8:]}, 'unequal', 'equal')
                     if path == fp and hash(path) != hash(fp):
                         fail('Path.__hash__ after history', 'equal paths (same _closed) with different hashes', {'history': hist[-8:]}, 'hash differs', 'hash equal')
